@@ -82,6 +82,10 @@ def cases(draw, tier="quick", mode=None):
             p["kind"] = "cli"
             extra = [{"when_p%d" % i: "2018-01-02", "at_p%d" % i: "12:30", "ts_p%d" % i: "2018-01-02T12:30:00"}]
             p["samples"] = list(p["samples"]) + extra * draw(st.sampled_from([1, 1, 4, 12]))
+    if mode == "stress" and not cli_datetime and draw(st.integers(0, 5)) == 0:
+        # one pipeline converts a very deep document after raising the recursion limit for it; the others are ordinary
+        pipes[-1]["kind"] = "library"
+        pipes[-1]["deep"] = draw(st.sampled_from([1100, 1200, 1500]))
     schedule = draw(st.lists(st.integers(0, 7), max_size=300)) if mode == "controlled" else []
     # threads may legitimately share a name (e.g. a pool that names all its workers alike)
     return {"mode": mode, "pipelines": pipes, "schedule": schedule, "same_thread_names": draw(st.sampled_from([False, False, True])),
@@ -104,6 +108,8 @@ def valid(case):
             if dk is not None and not (isinstance(dk, dict) and all(k in ("slots", "frozen", "eq", "order") and isinstance(v, bool) for k, v in dk.items())):
                 return False
             if not isinstance(po.pop("default_registry", False), bool) or p.get("kind", "library") not in ("library", "cli"):
+                return False
+            if p.get("deep") is not None and not (isinstance(p["deep"], int) and 0 <= p["deep"] <= 2000 and p.get("kind", "library") == "library"):
                 return False
             if not c01.valid({"samples": p["samples"], "opts": po}):
                 return False
@@ -144,9 +150,22 @@ def job(spec, path=None, datetime_=False):
         return run_cli
 
     def run():
-        b = pl.build(spec["samples"], spec["opts"])
+        samples = spec["samples"]
+        if spec.get("deep"):
+            # a document nested deeper than the default recursion limit allows: its owner raises the (process-wide) limit first,
+            # the usual advice for deep JSON
+            sys.setrecursionlimit(max(sys.getrecursionlimit(), 3000))
+            samples = list(samples) + [{"deep_doc": deep_list(spec["deep"])}]
+        b = pl.build(samples, spec["opts"])
         return pl.render(b.reg, pl.norm_opts(spec["opts"]))
     return run
+
+
+def deep_list(n):
+    d = 1
+    for _ in range(n):
+        d = [d]
+    return d
 
 
 def solo(spec, path=None, datetime_=False):
@@ -156,6 +175,8 @@ def solo(spec, path=None, datetime_=False):
         except BaseException as e:  # noqa: BLE001
             return ("exc", type(e).__name__, str(e)[:200]), False, 0
     try:
+        if spec.get("deep"):
+            return ("ok", job(spec)()), False, 2
         b = pl.build(spec["samples"], spec["opts"])
         o = pl.norm_opts(spec["opts"])
         ctx = False
@@ -170,6 +191,12 @@ def solo(spec, path=None, datetime_=False):
 
 
 def check(case):
+    if any(p.get("deep") for p in case["pipelines"]):
+        limit = sys.getrecursionlimit()
+        try:
+            return _check(case)
+        finally:
+            sys.setrecursionlimit(limit)
     if not case.get("cli_datetime"):
         return _check(case)
     # --datetime commands change the process-wide registry for good (documented); the worker process serves other cases
